@@ -365,6 +365,13 @@ func lexFixtures() []lxSpec {
 			{"", []lxRule{L("A", a, push("M")), L("X", lit("x"))}},
 			{"M", []lxRule{L("B", b, push("$default")), L("C", c, pop)}},
 		}},
+		// mode names whose declaration order, bytewise order and case-insensitive order all differ
+		{name: "mode-names-mixed-case", alpha: abc, maxIn: 5, modes: []lxMode{
+			{"", []lxRule{L("TOA", a, push("alpha")), L("TOZ", b, push("Zeta")), L("TOB", c, push("Beta"))}},
+			{"alpha", []lxRule{L("A1", a, pop), L("A2", b)}},
+			{"Zeta", []lxRule{L("Z1", b, pop), L("Z2", c)}},
+			{"Beta", []lxRule{L("B1", c, pop), L("B2", a)}},
+		}},
 		// @external names between tokens, at top level and inside a mode: numbering follows the declarations
 		{name: "externals-interleaved", alpha: abc, maxIn: 4, modes: []lxMode{
 			{"", []lxRule{X("INDENT"), L("A", a, push("M")), X("DEDENT"), L("B", b)}},
